@@ -197,15 +197,21 @@ def prepare(m, case):
             m.vertices[i] = M.Vec(float(v[0]), float(v[1]), float(v[2]))
 
 
-def run_case(case):
+def run_case(case, meshes=None, keep=None):
+    """one object built, computed and observed.  meshes = (mesh under test, mesh for the observations) when the caller
+    shares them between several objects (sessions); keep: list receiving the object built"""
     import mouette as M  # noqa
     from mouette.processing import trees as T
     spec = case["mesh"]
-    m = build_mesh(spec)
-    prepare(m, case)
-    # the neighbour slots / element tables are read from a second mesh object built from the same data, so the tree
-    # under test runs on cold connectivity caches
-    m_obs = build_mesh(spec)
+    if meshes is None:
+        m = build_mesh(spec)
+        prepare(m, case)
+        # the neighbour slots / element tables are read from a second mesh object built from the same data, so the
+        # tree under test runs on cold connectivity caches
+        m_obs = build_mesh(spec)
+    else:
+        m, m_obs = meshes
+    omit = bool(case.get("omit_optional"))      # build WITHOUT the optional arguments (their defaults apply)
     kind = case["kind"]
     op = case["op"]
     unstable = []
@@ -228,13 +234,22 @@ def run_case(case):
         raw, poly = raw_slots(m_obs, spec, kind, excl_set, True)
         res.update({"raw": raw, "polyline": poly, "n": len(raw)})
         try:
-            if kind == "edge":
+            if omit:
+                t = {"edge": T.EdgeSpanningTree, "face": T.FaceSpanningTree, "cell": T.CellSpanningTree}[kind](m, case["root"])
+                if keep is not None:
+                    keep.append(t)
+                t = t()
+            elif kind == "edge":
                 t = T.EdgeSpanningTree(m, case["root"], avoid_boundary=bool(case.get("avoid_boundary", False)),
-                                       avoid_edges=excl_set)()
+                                       avoid_edges=excl_set)
             elif kind == "face":
-                t = T.FaceSpanningTree(m, case["root"], excl_set)()
+                t = T.FaceSpanningTree(m, case["root"], excl_set)
             else:
-                t = T.CellSpanningTree(m, case["root"], excl_set)()
+                t = T.CellSpanningTree(m, case["root"], excl_set)
+            if not omit:
+                if keep is not None:
+                    keep.append(t)
+                t = t()
             t = again(t)
             res["err"] = None
             res.update(tree_obs(t, ro, unstable))
@@ -244,11 +259,14 @@ def run_case(case):
         raw, poly = raw_slots(m_obs, spec, kind, excl_set if kind == "face" else None, True)
         res.update({"raw": raw, "polyline": poly, "n": len(raw)})
         if kind == "edge":
-            f = T.EdgeSpanningForest(m)()
+            f = T.EdgeSpanningForest(m)
         elif kind == "face":
-            f = T.FaceSpanningForest(m, excl_set)()
+            f = T.FaceSpanningForest(m) if omit else T.FaceSpanningForest(m, excl_set)
         else:
-            f = T.CellSpanningForest(m)()
+            f = T.CellSpanningForest(m)
+        if keep is not None:
+            keep.append(f)
+        f = f()
         f = again(f)
         res["err"] = None
         res.update(forest_obs(f, ro, unstable))
@@ -271,8 +289,14 @@ def run_case(case):
         else:
             weights = w
         try:
-            t = T.EdgeMinimalSpanningTree(m, case["root"], avoid_boundary=bool(case.get("avoid_boundary", False)),
-                                          weights=weights)()
+            if omit:
+                t = T.EdgeMinimalSpanningTree(m, case["root"])
+            else:
+                t = T.EdgeMinimalSpanningTree(m, case["root"], avoid_boundary=bool(case.get("avoid_boundary", False)),
+                                              weights=weights)
+            if keep is not None:
+                keep.append(t)
+            t = t()
             t = again(t)
             res["err"] = None
             res.update(tree_obs(t, ro, unstable))
@@ -288,6 +312,110 @@ def run_case(case):
     return res
 
 
+EXCL_ATTR = {"EdgeSpanningTree": "_avoidedges", "EdgeMinimalSpanningTree": "_avoidedges",
+             "FaceSpanningTree": "forbidden_edges", "CellSpanningTree": "forbidden_faces",
+             "FaceSpanningForest": "forbidden_edges"}
+
+
+def excl_of(obj):
+    a = EXCL_ATTR.get(type(obj).__name__)
+    return None if a is None else getattr(obj, a, None)
+
+
+def obj_snapshot(obj):
+    if hasattr(obj, "trees"):
+        return {"roots": ints(obj.roots), "trees": [snapshot(t, TREE_READS, sorted(TREE_READS)) for t in obj.trees]}
+    return snapshot(obj, TREE_READS, sorted(TREE_READS))
+
+
+def run_session(case):
+    """several tree / forest objects in ONE interpreter session, on shared and on different mesh objects, built with and
+    without their optional arguments; between constructions the caller adds ids to the public exclusion set of earlier
+    objects.  Every object is reported as an ordinary case (checked against the exclusions IT was given), and at the end
+    every object is looked at again: later constructions / mutations must not have changed its tables, and its exclusion
+    set must hold what it was given plus what was explicitly added to it"""
+    meshes = [(build_mesh(sp), build_mesh(sp)) for sp in case["meshes"]]
+    objs, results, snaps, expected, subs, first_result = [], [], [], [], [], []
+    for step in case["steps"]:
+        if step["do"] == "build":
+            sub = dict(step["case"])
+            sub["mesh"] = case["meshes"][sub["mesh_id"]]
+            keep = []
+            try:
+                res = run_case(sub, meshes=meshes[sub["mesh_id"]], keep=keep)
+            except CaseTimeout:
+                raise
+            except Exception as ex:  # noqa
+                import traceback
+                res = {"op": sub.get("op"), "kind": sub.get("kind"), "crash": "%s: %s" % (type(ex).__name__, ex),
+                       "tb": traceback.format_exc()[-600:]}
+            obj = keep[0] if keep else None
+            objs.append(obj)
+            subs.append(sub)
+            first_result.append(len(results))
+            results.append(res)
+            ok = obj is not None and res.get("err") is None and "crash" not in res
+            snaps.append(obj_snapshot(obj) if ok else None)
+            res_index = len(results) - 1
+            ex0 = excl_of(obj) if obj is not None else None
+            given = sub.get("excl")
+            want = None
+            if obj is not None and type(obj).__name__ in EXCL_ATTR:
+                if given is not None and not sub.get("omit_optional") and not (sub["op"] == "kruskal"):
+                    want = set(given)
+                elif type(obj).__name__ in ("FaceSpanningTree", "CellSpanningTree"):
+                    want = set()
+            expected.append(want)
+            if ok and (None if ex0 is None else set(ex0)) != want:
+                res.setdefault("unstable", []).append(
+                    "exclusion set right after construction is %s, the object was given %s" % (None if ex0 is None else sorted(ex0), None if want is None else sorted(want)))
+        elif step["do"] == "mutate":
+            k = step["obj"]
+            tgt = excl_of(objs[k]) if k < len(objs) and objs[k] is not None else None
+            if tgt is not None:
+                tgt.update(step["ids"])
+                expected[k] = set(expected[k] or set()) | set(step["ids"])
+        else:
+            # reconfigure an existing tree through its public attributes (root, exclusion set) and compute() again:
+            # the object must then be the tree of the NEW configuration (tables and traversals alike)
+            k = step["obj"]
+            obj = objs[k] if k < len(objs) else None
+            sub = subs[k] if k < len(objs) else None
+            if obj is None or snaps[k] is None or sub["op"] not in ("tree", "kruskal"):
+                results.append({"skipped": True})
+                continue
+            m, m_obs = meshes[sub["mesh_id"]]
+            n_el = len(obj.parent)
+            obj.root = step["root"] % n_el
+            tgt = excl_of(obj)
+            if tgt is not None:
+                tgt.update(step["ids"])
+                expected[k] = set(expected[k] or set()) | set(step["ids"])
+            obj.compute()
+            res = dict(results[first_result[k]])
+            unstable = []
+            if sub["op"] == "tree":
+                raw, _ = raw_slots(m_obs, case["meshes"][sub["mesh_id"]], sub["kind"], None if tgt is None else set(tgt), True)
+                res["raw"] = raw
+            res.update(tree_obs(obj, step.get("read_order", 0), unstable))
+            res["unstable"] = unstable
+            res["update"] = {"obj": k, "root": int(obj.root), "excl": None if tgt is None else sorted(int(x) for x in tgt)}
+            snaps[k] = obj_snapshot(obj)
+            results.append(res)
+    for k, obj in enumerate(objs):
+        if snaps[k] is None:
+            continue
+        now = obj_snapshot(obj)
+        if now != snaps[k]:
+            results[first_result[k]].setdefault("unstable", []).append("object %d of the session: its tables changed after later constructions / mutations of other objects" % k)
+        ex1 = excl_of(obj)
+        if (None if ex1 is None else set(ex1)) != expected[k]:
+            results[first_result[k]].setdefault("unstable", []).append(
+                "object %d of the session: its exclusion set is %s, expected %s (given + explicitly added)"
+                % (k, None if ex1 is None else sorted(ex1)[:12], None if expected[k] is None else sorted(expected[k])[:12]))
+    return {"op": "session", "kind": "session", "results": results}
+
+
 def main():
     payload = json.load(sys.stdin)
     import mouette  # noqa  (imported before any alarm is armed: the import can be slow on a loaded machine)
@@ -297,7 +425,7 @@ def main():
     for case in payload["cases"]:
         signal.alarm(int(payload.get("case_timeout", 60)))
         try:
-            out.append(run_case(case))
+            out.append(run_session(case) if case.get("op") == "session" else run_case(case))
         except CaseTimeout:
             out.append({"op": case.get("op"), "kind": case.get("kind"), "crash": "timeout (non-termination?)"})
         except Exception as ex:  # noqa
